@@ -7,7 +7,12 @@ MODEL_QUALID = "Model.Layers.run_script"
 FORMAT = (
     "first integer = mode. Real layer ids: 0 bulkhead 1 ratelimiter 2 circuitbreaker 3 retry 4 timelimiter "
     "5 cache 6 fallback 7 hedge 8 reconnect 9 adaptive 10 coalesce 11 executor 12 chaos(rates 0) "
-    "13 circuitbreaker.with_fallback 14 timelimiter(cancel_running_future=false) 15 retry with zero backoff. "
+    "13 circuitbreaker.with_fallback 14 timelimiter(cancel_running_future=false) 15 retry with zero backoff "
+    "16 circuitbreaker that has been OPEN (force_open() at construction, wait_duration_in_open 5 ms, the harness "
+    "advances 6 ms before the first request: the first call reaching the breaker is the half-open trial call, a "
+    "successful trial closes it) 17 the same for with_fallback 18 circuitbreaker that is Open at every client "
+    "poll_ready and is force_closed() between the client's poll_ready and call (force_open() again after the "
+    "request) 19 the same for with_fallback using reset(). "
     "mode 1 (readiness protocol, strict contract-checking wrapped service): [1; n; layer ids outermost first; k "
     "(extra attempts of retry/hedge/reconnect); nreq; oracle of the wrapped poll_ready: 0 Ready 1 Pending 2 Err...] "
     "-> per request 0 called / 1 readiness error at poll_ready / 2 readiness error inside the call / 3 never ready, "
@@ -27,7 +32,9 @@ RULE = (
     "with exactly one retry/hedge/reconnect layer); the guide's stacks. mode 0: every layer x inner kinds x ok/err, "
     "random stacks of 2..5 layers, the composition guide's stacks. mode 2: every layer with a listener API x 1..4 "
     "listeners x every panic mask. thorough adds all oracles over {Ready,Pending,Err} up to length 4 per layer and "
-    "all two-layer stacks. Non-trivial = some Pending/Err or k > 0 (mode 1), depth >= 2 or Buffer/ConcurrencyLimit "
+    "all two-layer stacks. Circuit breakers that have been OPEN (ids 16..19, both Service impls): alone and at every "
+    "depth of random stacks in modes 1 and 0 (all inner kinds), so that the half-open trial call and the call after "
+    "force_closed()/reset() are checked against the strict service, Buffer and ConcurrencyLimit. Non-trivial = some Pending/Err or k > 0 (mode 1), depth >= 2 or Buffer/ConcurrencyLimit "
     "(mode 0), some listener panics (mode 2)"
 )
 TRUSTED = [
@@ -47,6 +54,9 @@ ASSUMPTIONS = [
     "the real hedge tasks interleave round-robin, the model runs them one after the other",
     "hedge treats every primary error as its trigger (it waits for the hedge and reports AllAttemptsFailed, never "
     "HedgeError::Inner): transparency scripts containing hedge use Ok inner outcomes only",
+    "a breaker that starts Open (16/17) is scripted so that its half-open trial call succeeds (mode 0: first inner "
+    "outcome Ok; mode 1: no retrying layer above it when k > 0), otherwise it re-opens and rejects, which is not a "
+    "non-triggering configuration",
     "retry / hedge / reconnect with k > 0 are scripted in stacks only when they are the single such layer (the "
     "wrapped service fails exactly the first k attempts of a request); below a hedge with k > 0 no layer that "
     "spawns a task (executor, non-cancelling time limiter)",
@@ -54,10 +64,16 @@ ASSUMPTIONS = [
 
 NAMES = ["bulkhead", "ratelimiter", "circuitbreaker", "retry", "timelimiter", "cache", "fallback", "hedge",
          "reconnect", "adaptive", "coalesce", "executor", "chaos", "cb_with_fallback", "timelimiter_nocancel",
-         "retry_zero_backoff"]
-ALL = list(range(16))
+         "retry_zero_backoff", "cb_was_open", "cb_fallback_was_open", "cb_closed_between_poll_and_call",
+         "cb_fallback_reset_between_poll_and_call"]
+# the layers that can go anywhere; 16/17 (breaker that starts Open) need their half-open trial call to
+# succeed and are generated separately (OPENED)
+ALL = list(range(16)) + [18, 19]
+OPENED = (16, 17)
+CB_VARIANTS = (16, 17, 18, 19)
 # discipline codes of Model/Layers.v: 0 Swap 1 Direct 2 Retry 3 Hedge 4 Reconnect
-DISC = {0: 0, 1: 0, 2: 0, 3: 2, 4: 0, 5: 1, 6: 0, 7: 3, 8: 4, 9: 1, 10: 1, 11: 0, 12: 0, 13: 0, 14: 0, 15: 2}
+DISC = {0: 0, 1: 0, 2: 0, 3: 2, 4: 0, 5: 1, 6: 0, 7: 3, 8: 4, 9: 1, 10: 1, 11: 0, 12: 0, 13: 0, 14: 0, 15: 2,
+        16: 0, 17: 0, 18: 0, 19: 0}
 SPECIAL = (3, 7, 8, 15)
 LISTENER_LAYERS = [0, 1, 2, 3, 4, 5, 6, 7, 12, 13, 14, 15]
 NO_LISTENER_LAYERS = [8, 9, 10, 11]
@@ -100,6 +116,18 @@ def corpus():
         out.append(proto([lid], 1 if lid in SPECIAL else 0, 2, []))
     out.append(lis(2, 3, 5, [0, 1, 1, 1, 0, 0]))
     out.append(lis(3, 2, 3, [2, 1, 4, 0]))
+    # a breaker that has been open: the half-open trial call / the call after force_closed() or reset()
+    # must go to an instance that was polled ready although the breaker read Open at poll_ready
+    for lid in CB_VARIANTS:
+        out.append(proto([lid], 0, 1, []))
+        out.append(proto([lid], 0, 3, [1, 0, 2, 0]))
+        for ik in (0, 1, 2):
+            out.append(transp([lid], ik, [(1, 0, 2)]))
+            out.append(transp([lid], ik, [(5, 0, 11), (6, 1, 12), (5, 0, 13)]))
+    for st in ([4, 3, 16, 4], [6, 4, 3, 17, 4], [6, 4, 16], [4, 10, 17], [16, 3], [5, 16, 4], [4, 18, 0], [6, 19]):
+        out.append(proto(st, 0, 2, [1, 0, 0]))
+        for ik in (0, 1, 2):
+            out.append(transp(st, ik, [(5, 0, 11), (6, 1, 12)]))
     return out
 
 
@@ -215,6 +243,47 @@ def generate(rng, tier):
             for b in ALL:
                 for orc in ([], [1, 0, 2], [0, 2, 1, 0], [2, 0, 1, 1, 0]):
                     out.append(proto([a, b], 0, 2, orc))
+    # ---- mode 1: a breaker that starts Open (16 / 17): alone, and at every depth of a stack. k = 0, or
+    # k > 0 with the one retrying layer BELOW the breaker (the trial call has to succeed)
+    for lid in OPENED:
+        for nreq in (1, 2, 3):
+            for orc in single_layer_oracles(lid, 0, nreq, not quick):
+                out.append(proto([lid], 0, nreq, orc))
+    for _ in range(60 if quick else 1500):
+        base = [rng.choice(ALL) for _ in range(rng.randrange(1, 4))]
+        nreq = rng.randrange(1, 4)
+        for pos in range(len(base) + 1):
+            st = base[:pos] + [rng.choice(OPENED)] + base[pos:]
+            out.append(proto(st, 0, nreq, rand_oracle(rng, rng.randrange(0, nreq + 3))))
+    for _ in range(80 if quick else 1500):
+        above = [rng.choice(plain) for _ in range(rng.randrange(0, 2))]
+        mid = [rng.choice(plain) for _ in range(rng.randrange(0, 2))]
+        below = [rng.choice(plain) for _ in range(rng.randrange(0, 2))]
+        k = rng.randrange(1, 4)
+        nreq = rng.randrange(1, 3)
+        st = above + [rng.choice(OPENED)] + mid + [rng.choice((3, 8, 15))] + below
+        # no readiness error until the trial call (request 1 with its k further attempts) is through:
+        # a trial ending in an error re-opens the breaker
+        orc, answered = [], 0
+        while answered < k + 1:
+            x = 1 if rng.random() < 0.25 and orc[-3:] != [1, 1, 1] else 0
+            orc.append(x)
+            answered += x == 0
+        out.append(proto(st, k, nreq, orc + rand_oracle(rng, rng.randrange(0, (nreq - 1) * (k + 1) + 2))))
+    # ---- mode 0: the same breakers; the first request is the trial call and succeeds
+    def first_ok(reqs):
+        return [(reqs[0][0], 0, reqs[0][2])] + list(reqs[1:])
+    for lid in OPENED:
+        for ik in (0, 1, 2):
+            for reqs in ([(5, 0, 11)], [(5, 0, 11), (6, 1, 12), (5, 0, 13), (5, 1, 11)]):
+                out.append(transp([lid], ik, reqs))
+            for _ in range(2 if quick else 20):
+                out.append(transp([lid], ik, first_ok(rand_reqs(rng, rng.randrange(1, 5), False))))
+    for _ in range(60 if quick else 1500):
+        base = [rng.choice(ALL) for _ in range(rng.randrange(1, 5))]
+        for pos in range(len(base) + 1):
+            st = base[:pos] + [rng.choice(OPENED)] + base[pos:]
+            out.append(transp(st, rng.randrange(3), first_ok(rand_reqs(rng, rng.randrange(1, 4), 7 in st))))
     # ---- mode 0: every layer alone
     for lid in ALL:
         for ik in (0, 1, 2):
@@ -421,7 +490,7 @@ def nontrivial(s, t):
 def classify(s, t):
     if s[0] == 1:
         n, ids, k, nreq, orc = parse1(s)
-        lab = ["mode1", "depth%d" % n, "k%d" % k] + ["L:" + NAMES[i] for i in sorted(set(ids)) if 0 <= i < 16]
+        lab = ["mode1", "depth%d" % n, "k%d" % k] + ["L:" + NAMES[i] for i in sorted(set(ids)) if 0 <= i < len(NAMES)]
         if 1 in orc:
             lab.append("oracle:pending")
         if any(x not in (0, 1) for x in orc):
@@ -433,11 +502,11 @@ def classify(s, t):
         n = s[1]
         ids = s[2:2 + n]
         nreq = s[3 + n]
-        lab = ["mode0", "depth%d" % n, "inner%d" % s[2 + n]] + ["L:" + NAMES[i] for i in sorted(set(ids)) if 0 <= i < 16]
+        lab = ["mode0", "depth%d" % n, "inner%d" % s[2 + n]] + ["L:" + NAMES[i] for i in sorted(set(ids)) if 0 <= i < len(NAMES)]
         kinds = set(s[5 + n + 3 * i] for i in range(nreq))
         lab += ["inner_ok" if x == 0 else "inner_err" for x in kinds]
         return sorted(set(lab))
-    lab = ["mode2", "L:" + NAMES[s[1]] if 0 <= s[1] < 16 else "L:?", "listeners%d" % s[2],
+    lab = ["mode2", "L:" + NAMES[s[1]] if 0 <= s[1] < len(NAMES) else "L:?", "listeners%d" % s[2],
            "panicking%d" % bin(s[3]).count("1")]
     return lab
 
